@@ -102,28 +102,26 @@ namespace Zed
 open Zed.Ord
 
 def VKok : VK → Prop
-  | .ty u => u.isNamed = false ∧ u.nnn = true
+  | .ty u => u.isNamed = false
   | _ => True
 
-theorem vk_ok (v : Val) (h : v.ok = true) : VKok (vk v) := by
+theorem vk_ok (v : Val) : VKok (vk v) := by
   unfold vk
   split
   · trivial
   · split
     · trivial
-    · have hn : v.ty.nnn = true := by
-        cases v <;> simp [Val.ok, Val.ty] at h ⊢ <;> first | exact h | exact h.1 | exact h.1.1
-      exact ⟨Ty.under_not_named _, Ty.nnn_under _ hn⟩
+    · exact Ty.under_not_named _
 
 theorem cmpVK_eq_iff (nm : Bool) : (k k' : VK) → VKok k → VKok k' → (cmpVK nm k k' = .eq ↔ k = k')
-  | .ty u, .ty u', h, h' => by simp [cmpVK, cmpS_eq_iff u u' h.1 h'.1 h.2 h'.2]
+  | .ty u, .ty u', h, h' => by simp [cmpVK, cmpS_eq_iff u u' h h']
   | .nullv, .nullv, _, _ => by simp [cmpVK]
   | .nullv, .num, _, _ | .nullv, .ty _, _, _ | .num, .nullv, _, _ | .ty _, .nullv, _, _ => by cases nm <;> simp [cmpVK]
   | .num, .num, _, _ => by simp [cmpVK]
   | .num, .ty _, _, _ | .ty _, .num, _, _ => by simp [cmpVK]
 
 theorem cmpVK_swap (nm : Bool) : (k k' : VK) → VKok k → VKok k' → cmpVK nm k' k = (cmpVK nm k k').swap
-  | .ty u, .ty u', h, h' => by simp only [cmpVK]; exact cmpS_swap u u' h.1 h'.1
+  | .ty u, .ty u', h, h' => by simp only [cmpVK]; exact cmpS_swap u u' h h'
   | .nullv, .nullv, _, _ => rfl
   | .nullv, .num, _, _ | .nullv, .ty _, _, _ | .num, .nullv, _, _ | .ty _, .nullv, _, _ => by cases nm <;> simp [cmpVK, Ordering.swap]
   | .num, .num, _, _ => rfl
@@ -135,8 +133,8 @@ theorem cmpVK_STr (nm : Bool) (k1 k2 k3 : VK) (h1 : VKok k1) (h2 : VKok k2) (h3 
     first
     | decide
     | (rename_i u u' u''
-       have := cmpTy_STr u u' u'' h1.2 h2.2 h3.2
-       rwa [cmpTy_eq_cmpS u u' h1.1 h2.1, cmpTy_eq_cmpS u' u'' h2.1 h3.1, cmpTy_eq_cmpS u u'' h1.1 h3.1] at this)
+       have := cmpTy_STr u u' u''
+       rwa [cmpTy_eq_cmpS u u' h1 h2, cmpTy_eq_cmpS u' u'' h2 h3, cmpTy_eq_cmpS u u'' h1 h3] at this)
     | (rename_i u u'; cases cmpS u u' <;> decide)
 
 end Zed
